@@ -166,6 +166,19 @@ def gen(rng, tier):
             p = r ** n
             for x in ((p - 1, p) if not thorough else (p - 2, p - 1, p, p + 1)):
                 emit(reqs, rng, x, n, signed_too=False)
+    # -- tiny roots with large degrees: x = Q·r^(n-1) + small with the Newton quotient floor(x / r^(n-1)) = Q at and above the
+    #    machine-word boundaries (2^64, 2^64 + 1, 2^65, 2^127, 2^128 …) while the root is still r: an iteration carried
+    #    in a machine word with the quotient narrowed instead of saturated overshoots exactly there (C11-y1)
+    for r in (2, 3, 4, 7):
+        for Q in (1 << 64, (1 << 64) + 1, (1 << 64) + r - 1, 1 << 65, (1 << 127) + 1, 1 << 128, (1 << 128) + 1, 3 << 64, (1 << 63) + 1, 1 << 32):
+            n = 2
+            while Q * r ** (n - 1) >= (r + 1) ** n:
+                n += 1
+            for nn in ((n, n + 1, n + 7, 2 * n) if thorough else (n, n + rng.randrange(1, 9))):
+                base = Q * r ** (nn - 1)
+                for x in (base, base + 1, base + rng.randrange(r ** (nn - 1))):
+                    if x < (r + 1) ** nn:
+                        emit(reqs, rng, x, nn, signed_too=(nn % 2 == 1))
     reqs += inherent_methods(rng, thorough)
     return reqs
 
